@@ -163,6 +163,41 @@ pub fn minimize(def: &PropDef, sc: &Scenario, v: &Violation, budget: Duration) -
             }
             chunk /= 2;
         }
+        // 2b. fold the first change of a document into its didOpen text (advance the initial
+        //     state): if the violation persists, the history before that point does not matter
+        loop {
+            if out_of_time(&t0) {
+                break;
+            }
+            let mut folded = false;
+            for i in 0..best.script.len() {
+                let ClientOp::Open { uri, text } = best.script[i].op.clone() else { continue };
+                let Some(j) = (i + 1..best.script.len()).find(|&j| match &best.script[j].op {
+                    ClientOp::Change { uri: u, .. } | ClientOp::Close { uri: u } | ClientOp::Open { uri: u, .. } => u == &uri,
+                    _ => false,
+                }) else {
+                    continue;
+                };
+                let ClientOp::Change { edits, .. } = best.script[j].op.clone() else { continue };
+                let mut t = text.clone();
+                for e in &edits {
+                    super::client::apply_edit(&mut t, e);
+                }
+                let mut c = best.clone();
+                c.script[i].op = ClientOp::Open { uri: uri.clone(), text: t };
+                c.script.remove(j);
+                if let Some(w) = still(def, &c, &bestv) {
+                    best = c;
+                    bestv = w;
+                    progress = true;
+                    folded = true;
+                    break;
+                }
+            }
+            if !folded {
+                break;
+            }
+        }
         // 3. drop barriers
         for i in 0..best.script.len() {
             if best.script[i].wait && !out_of_time(&t0) {
